@@ -152,6 +152,33 @@ func (f *FloatV) GoFloat() (float64, bool) {
 	return v, true
 }
 
+// roundToBinary models rounding of an exact integral real to binary64 /
+// binary32: an uninterpreted function that is the identity up to 2^53 (2^24).
+// Non-integral symbolic reals stay exact (the harnesses' exact-float domain).
+func (in *Interp) roundToBinary(v *Term, bits int) (*Term, bool) {
+	k, ok := asInt(v)
+	if !ok {
+		return v, false
+	}
+	lim := pow2[53]
+	name := "fl64"
+	if bits == 32 {
+		lim = pow2[24]
+		name = "fl32"
+	}
+	lo, hi := in.ival(k)
+	if lo != nil && hi != nil && new(big.Int).Abs(lo).Cmp(lim) <= 0 && new(big.Int).Abs(hi).Cmp(lim) <= 0 {
+		return v, false
+	}
+	f := UF(name, SReal, v)
+	in.bg = append(in.bg, Implies(And(Le(Neg(BigC(lim)), k), Le(k, BigC(lim))), Eq(f, v)))
+	// rounding is monotone around the exact-range boundary and never moves a value by more than its ulp;
+	// beyond 2^53 (2^24) every representable value is even
+	in.bg = append(in.bg, Implies(Gt(k, BigC(lim)), And(Ge(f, ToReal(BigC(lim))), Le(Sub(f, v), RealOfInt(1<<10)), Le(Sub(v, f), RealOfInt(1<<10)))))
+	in.bg = append(in.bg, Implies(Lt(k, Neg(BigC(lim))), And(Le(f, ToReal(Neg(BigC(lim)))), Le(Sub(f, v), RealOfInt(1<<10)), Le(Sub(v, f), RealOfInt(1<<10)))))
+	return f, true
+}
+
 func (in *Interp) floatBinop(op token.Token, x, y *FloatV) Value {
 	// concrete fast path: exact Go semantics
 	if a, ok := x.GoFloat(); ok {
@@ -267,13 +294,20 @@ func (in *Interp) floatBinop(op token.Token, x, y *FloatV) Value {
 		return in.floatSpecialArith(op, x, y)
 	}
 	res := &FloatV{Cls: FFinite, Bits: x.Bits, Lossy: x.Lossy || y.Lossy}
+	round := func(v *Term) *Term {
+		r, rounded := in.roundToBinary(v, x.Bits)
+		if rounded {
+			res.Lossy = true
+		}
+		return r
+	}
 	switch op {
 	case token.ADD:
-		res.Val = Add(x.Val, y.Val)
+		res.Val = round(Add(x.Val, y.Val))
 	case token.SUB:
-		res.Val = Sub(x.Val, y.Val)
+		res.Val = round(Sub(x.Val, y.Val))
 	case token.MUL:
-		res.Val = Mul(x.Val, y.Val)
+		res.Val = round(Mul(x.Val, y.Val))
 	case token.QUO:
 		k := in.decide("fdiv0", []*Term{Not(Eq(y.Val, RealOfInt(0))), And(Eq(y.Val, RealOfInt(0)), Eq(x.Val, RealOfInt(0))), And(Eq(y.Val, RealOfInt(0)), Gt(x.Val, RealOfInt(0))), And(Eq(y.Val, RealOfInt(0)), Lt(x.Val, RealOfInt(0)))})
 		switch k {
@@ -392,8 +426,9 @@ func (in *Interp) convert(v Value, from, to types.Type) Value {
 			if bits == 32 {
 				lim = pow2[24]
 			}
-			lossy := !(t.lo != nil && t.hi != nil && new(big.Int).Abs(t.lo).Cmp(lim) <= 0 && new(big.Int).Abs(t.hi).Cmp(lim) <= 0)
-			return &FloatV{Cls: FFinite, Val: ToReal(t), Bits: bits, Lossy: lossy}
+			_ = lim
+			val, rounded := in.roundToBinary(ToReal(t), bits)
+			return &FloatV{Cls: FFinite, Val: val, Bits: bits, Lossy: rounded}
 		case fb.Info()&types.IsFloat != 0 && tb.Info()&types.IsInteger != 0:
 			f := v.(*FloatV)
 			bits, signed, _ := intBits(to)
@@ -842,7 +877,7 @@ func (in *Interp) lookup(x Value, key Value, commaOk bool, rt types.Type) Value 
 }
 
 func (in *Interp) mapUpdate(m *MapV, key, val Value) {
-	if in.monitorOn && in.underTest > 0 && in.parseDepth == 0 && (m.Org == OrgDoc || m.Org == OrgAST || m.Org == OrgGlobal) {
+	if in.monitorOn && in.underTest > 0 && (m.Org == OrgDoc || (m.Org == OrgAST && in.parseDepth == 0) || m.Org == OrgGlobal) {
 		in.Events = append(in.Events, Event{Kind: "sharedwrite", Msg: "map update on " + m.Org.String() + " map", Where: in.where(), Stack: in.stackNames()})
 	}
 	idx := in.mapFind(m, key)
